@@ -1,5 +1,457 @@
+/-
+Helper lemmas for C07 at tree level (`Bolt.Props.C07Tree`): which page ids the tree the commit
+writes still references.  `Put`/`Delete` keep `pgids` (`OpsL.applyOps_pgids`), every
+rebalance step only drops page ids (`RebL.rebalanceAt_step`), and `spill` replaces every
+materialised node by pieces with a fresh header (`written`, page id 0) while pages stay
+verbatim: the non-zero page ids after the spill are a sublist of those before.
+-/
 import Bolt.Model.BTreeInv
+import Bolt.Lemmas.BTreeOps
+import Bolt.Lemmas.BTreeReb
+import Bolt.Lemmas.BTreeSpill
 namespace Bolt.BTree.PagesL
-open Bolt Bolt.BTree
+open Bolt Bolt.BTree Bolt.Node
+open Bolt.BTree.SpillL (Lt SortedIn kv spillStep)
+
+/-- the old page ids in a list of page ids (0 = newly written) -/
+def Kp (l : List Nat) : List Nat := l.filter (· ≠ 0)
+
+theorem Kp_append (a b : List Nat) : Kp (a ++ b) = Kp a ++ Kp b := by
+  unfold Kp; rw [List.filter_append]
+
+theorem Kp_sub {a b : List Nat} (h : a.Sublist b) : (Kp a).Sublist (Kp b) := by
+  unfold Kp; exact h.filter _
+
+theorem Kp_zero_cons (l : List Nat) : Kp (0 :: l) = Kp l := by
+  unfold Kp; simp
+
+/-- page ids of a list of nodes -/
+def pgidsL (pcs : List N) : List Nat := (pcs.map pgids).flatten
+
+theorem pgidsL_nil : pgidsL [] = [] := rfl
+
+theorem pgidsL_cons (q : N) (r : List N) : pgidsL (q :: r) = pgids q ++ pgidsL r := by
+  unfold pgidsL; rw [List.map_cons, List.flatten_cons]
+
+theorem pgidsL_single (q : N) : pgidsL [q] = pgids q := by
+  rw [pgidsL_cons, pgidsL_nil, List.append_nil]
+
+theorem pgidsKids_kv : ∀ pcs : List N, pgidsKids (pcs.map kv) = pgidsL pcs
+  | [] => by rw [List.map_nil, OpsL.pgidsKids_nil, pgidsL_nil]
+  | q :: r => by
+    rw [List.map_cons, pgidsL_cons, ← pgidsKids_kv r]
+    unfold kv
+    rw [RebL.pgidsKids_cons]
+
+theorem Kp_split_leaf : ∀ segs : List (List Item), Kp (pgidsL (segs.map (N.leaf written))) = []
+  | [] => rfl
+  | s :: r => by
+    rw [List.map_cons, pgidsL_cons, OpsL.pgids_leaf, Kp_append, Kp_split_leaf r]
+    rfl
+
+theorem Kp_split_branch : ∀ segs : List (List (Bytes × N)),
+    Kp (pgidsL (segs.map (N.branch written))) = Kp (pgidsKids segs.flatten)
+  | [] => by rw [List.map_nil, List.flatten_nil, OpsL.pgidsKids_nil, pgidsL_nil]
+  | s :: r => by
+    rw [List.map_cons, pgidsL_cons, RebL.pgids_branch, Kp_append, Kp_split_branch r,
+      List.flatten_cons, RebL.pgidsKids_append, Kp_append]
+    show Kp (0 :: pgidsKids s) ++ _ = _
+    rw [Kp_zero_cons]
+
+/-! ### `putPieces` / `spillStep` basics -/
+
+theorem putPieces_count : ∀ (pcs : List N) (ks : List (Bytes × N)) (key : Bytes) (r : List (Bytes × N)),
+    putPieces ks key pcs = some r → ∀ q ∈ pcs, q.count ≠ 0
+  | [], _, _, _, _ => by intro q hq; cases hq
+  | p :: rest, ks, key, r, h => by
+    rw [putPieces] at h
+    by_cases h0 : p.count = 0
+    · rw [if_pos h0] at h; cases h
+    · rw [if_neg h0] at h
+      intro q hq
+      rcases List.mem_cons.mp hq with rfl | hq
+      · exact h0
+      · exact putPieces_count rest _ _ r h q hq
+
+theorem foldl_step_none (ps sth fuel : Nat) : ∀ l : List (Bytes × N),
+    l.foldl (spillStep ps sth fuel) none = none
+  | [] => rfl
+  | _ :: r => by rw [List.foldl_cons]; exact foldl_step_none ps sth fuel r
+
+theorem spillN_zero (ps sth : Nat) (n : N) : spillN ps sth 0 n = none := by
+  rw [spillN]
+
+/-- what the induction hypothesis says about a child -/
+def ChildP (ps sth fuel : Nat) (pmat : Bool) (c : N) : Prop :=
+  ∀ lo hi pcs, inTxN false pmat lo hi c = true → c.count ≠ 0 → spillN ps sth fuel c = some pcs →
+    pcs ≠ [] ∧ SortedIn lo hi (pcs.map N.firstKey) ∧ (Kp (pgidsL pcs)).Sublist (Kp (pgids c))
+
+/-- a materialised node without inodes is written as one empty piece -/
+theorem spill_count0 (ps sth fuel : Nat) (pmat : Bool) (lo hi : Option Bytes) (c : N) (pcs : List N)
+    (hm : c.hd.mat = true) (hin : inTxN false pmat lo hi c = true) (h0 : c.count = 0)
+    (hsp : spillN ps sth fuel c = some pcs) : ∃ q ∈ pcs, q.count = 0 := by
+  cases c with
+  | branch hd kids =>
+    rw [inTxN] at hin
+    simp only [Bool.and_eq_true, decide_eq_true_eq] at hin
+    have := hin.1.1.1.2
+    simp only [N.count] at h0
+    omega
+  | leaf hd items =>
+    simp only [N.count] at h0
+    have : items = [] := List.eq_nil_of_length_eq_zero h0
+    subst this
+    cases fuel with
+    | zero => rw [spillN_zero] at hsp; cases hsp
+    | succ f =>
+      rw [SpillL.spillN_empty_leaf ps sth f hd hm] at hsp
+      cases hsp
+      exact ⟨_, List.mem_cons_self .., rfl⟩
+
+/-! ### the fold over the children of a spilled branch -/
+
+theorem fold_pg (ps sth fuel : Nat) (pmat : Bool) (hi : Option Bytes) (d : Nat) :
+    ∀ (post A : List (Bytes × N)) (lo : Option Bytes) (R : List (Bytes × N)),
+    (∀ p ∈ post, ChildP ps sth fuel pmat p.2) →
+    inTxKids pmat lo hi post d = true →
+    SortedIn lo hi (post.map (·.1)) →
+    (∀ p ∈ post, p.1 ≠ []) →
+    (∀ a ∈ A, ∀ p ∈ post, Bytes.lt a.1 p.1 = true) →
+    (A ≠ [] → lo = post.head?.map (·.1)) →
+    post.foldl (spillStep ps sth fuel) (some (A ++ post)) = some R →
+    ∃ X, R = A ++ X ∧ post.length ≤ X.length ∧
+      SortedIn lo hi (X.map (·.1)) ∧ (Kp (pgidsKids X)).Sublist (Kp (pgidsKids post)) := by
+  intro post
+  induction post with
+  | nil =>
+    intro A lo R _ _ _ _ _ _ hfold
+    simp only [List.foldl_nil, Option.some.injEq] at hfold
+    exact ⟨[], hfold.symm, Nat.le_refl _, SpillL.SortedIn_nil _ _, List.Sublist.refl _⟩
+  | cons p r ihr =>
+    intro A lo R hch hk hs hne hAp hAlo hfold
+    obtain ⟨s, c⟩ := p
+    rw [inTxKids] at hk
+    simp only [Bool.and_eq_true, beq_iff_eq] at hk
+    obtain ⟨⟨⟨hsc, hdc⟩, hinc⟩, hkr⟩ := hk
+    have hAs : ∀ a ∈ A, Bytes.lt a.1 s = true := fun a ha => hAp a ha (s, c) (List.mem_cons_self ..)
+    have hsb := hs.2 s (by simp)
+    -- the upper bound of the child is below every later separator
+    have hhic : ∀ k, ltHi ((r.head?.map (·.1)).orElse (fun _ => hi)) k = true →
+        ∀ b ∈ r, Bytes.lt k b.1 = true := by
+      intro k hk b hb
+      cases r with
+      | nil => cases hb
+      | cons p' r' =>
+        obtain ⟨s', c'⟩ := p'
+        have hk' : Bytes.lt k s' = true := by simpa [ltHi] using hk
+        rcases List.mem_cons.mp hb with rfl | hb
+        · exact hk'
+        · have h2 := (List.pairwise_cons.mp (List.pairwise_cons.mp hs.1).2).1 b.1
+            (List.mem_map.mpr ⟨b, hb, rfl⟩)
+          exact Bytes.lt_trans hk' h2
+    have hshic : ltHi ((r.head?.map (·.1)).orElse (fun _ => hi)) s = true := by
+      cases r with
+      | nil => simpa using hsb.2
+      | cons p' r' =>
+        obtain ⟨s', c'⟩ := p'
+        have := (List.pairwise_cons.mp hs.1).1 s' (by simp)
+        simpa [ltHi] using this
+    -- one step of the fold
+    have hstep : ∀ S, spillStep ps sth fuel (some (A ++ (s, c) :: r)) (s, c) = some S →
+        ∃ Xc, S = A ++ Xc ++ r ∧ 1 ≤ Xc.length ∧
+        SortedIn lo ((r.head?.map (·.1)).orElse (fun _ => hi)) (Xc.map (·.1)) ∧
+        (Kp (pgidsKids Xc)).Sublist (Kp (pgids c)) := by
+      intro S hS
+      by_cases hm : c.hd.mat = true
+      · -- materialised child: spilled, its pieces re-inserted by key
+        rw [if_pos hm] at hsc
+        simp only [spillStep, hm, Bool.not_true, Bool.false_eq_true, if_false] at hS
+        cases hsp : spillN ps sth fuel c with
+        | none => rw [hsp] at hS; cases hS
+        | some pieces =>
+          rw [hsp] at hS
+          simp only at hS
+          have hcnt := putPieces_count _ _ _ _ hS
+          have hc0 : c.count ≠ 0 := by
+            intro h0
+            obtain ⟨q, hq, hq0⟩ := spill_count0 ps sth fuel _ _ _ c pieces hm hinc h0 hsp
+            exact hcnt q hq hq0
+          obtain ⟨hpne, hkeys, hsub⟩ := hch (s, c) (List.mem_cons_self ..) _ _ pieces hinc hc0 hsp
+          have hput := SpillL.putPieces_child A r s c pieces (hne (s, c) (List.mem_cons_self ..)) hpne
+            hcnt hkeys.1 hAs
+            (by
+              intro a ha q hq
+              have hlo := hAlo (List.ne_nil_of_mem ha)
+              simp only [List.head?_cons, Option.map_some] at hlo
+              have hge := (hkeys.2 q.firstKey (List.mem_map.mpr ⟨q, hq, rfl⟩)).1
+              rw [hlo] at hge
+              exact SpillL.lt_of_lt_of_le (hAs a ha) (by simpa [geLo] using hge))
+            (by
+              intro q hq b hb
+              exact hhic _ (hkeys.2 q.firstKey (List.mem_map.mpr ⟨q, hq, rfl⟩)).2 b hb)
+          rw [← hsc, hput] at hS
+          simp only [Option.some.injEq] at hS
+          refine ⟨pieces.map kv, hS.symm, ?_, ?_, ?_⟩
+          · rw [List.length_map]
+            cases pieces with
+            | nil => exact absurd rfl hpne
+            | cons a b => simp
+          · rw [List.map_map]
+            exact hkeys
+          · rw [pgidsKids_kv]; exact hsub
+      · -- a page stays as it is
+        have hm' : c.hd.mat = false := by simpa using hm
+        simp only [spillStep, hm', Bool.not_false, if_true, Option.some.injEq] at hS
+        refine ⟨[(s, c)], ?_, Nat.le_refl _, ?_, ?_⟩
+        · rw [← hS]; simp
+        · exact ⟨by simp, by
+            intro k hk
+            simp only [List.map_cons, List.map_nil, List.mem_singleton] at hk; subst hk
+            exact ⟨hsb.1, hshic⟩⟩
+        · rw [RebL.pgidsKids_cons, OpsL.pgidsKids_nil, List.append_nil]
+          exact List.Sublist.refl _
+    rw [List.foldl_cons] at hfold
+    cases hS : spillStep ps sth fuel (some (A ++ (s, c) :: r)) (s, c) with
+    | none => rw [hS, foldl_step_none] at hfold; cases hfold
+    | some S =>
+      rw [hS] at hfold
+      obtain ⟨Xc, rfl, hl1, hso, hpg⟩ := hstep S hS
+      rw [RebL.pgidsKids_cons, Kp_append]
+      cases r with
+      | nil =>
+        simp only [List.foldl_nil, Option.some.injEq] at hfold
+        refine ⟨Xc, by rw [← hfold, List.append_nil], by simpa using hl1, by simpa using hso, ?_⟩
+        rw [OpsL.pgidsKids_nil, show Kp [] = [] from rfl, List.append_nil]
+        exact hpg
+      | cons p' r' =>
+        obtain ⟨s', c'⟩ := p'
+        have hs'b := hs.2 s' (by simp)
+        obtain ⟨X', hR, hl1', hso', hpg'⟩ := ihr (A ++ Xc) (some s') R
+          (fun p hp => hch p (List.mem_cons_of_mem _ hp)) hkr (SpillL.seps_tail hs)
+          (fun p hp => hne p (List.mem_cons_of_mem _ hp))
+          (fun a ha p hp => by
+            rcases List.mem_append.mp ha with ha | ha
+            · exact hAp a ha p (List.mem_cons_of_mem _ hp)
+            · exact hhic a.1 (hso.2 a.1 (List.mem_map.mpr ⟨a, ha, rfl⟩)).2 p hp)
+          (fun _ => rfl) hfold
+        refine ⟨Xc ++ X', ?_, ?_, ?_, ?_⟩
+        · rw [hR, List.append_assoc]
+        · simp only [List.length_cons, List.length_append] at hl1' ⊢; omega
+        · rw [List.map_append]
+          exact SpillL.SortedIn_append (by simpa using hso) hso' hs'b.1 hs'b.2
+        · rw [RebL.pgidsKids_append, Kp_append]
+          exact List.Sublist.append hpg hpg'
+
+/-! ### `spillN` -/
+
+theorem spillN_pg (ps sth : Nat) : ∀ (n : N) (fuel : Nat) (pmat : Bool) (lo hi : Option Bytes) (pcs : List N),
+    inTxN false pmat lo hi n = true → n.count ≠ 0 → spillN ps sth fuel n = some pcs →
+    pcs ≠ [] ∧ SortedIn lo hi (pcs.map N.firstKey) ∧ (Kp (pgidsL pcs)).Sublist (Kp (pgids n)) := by
+  refine SpillL.N_ind ?_ ?_
+  · intro hd items fuel pmat lo hi pcs h hc hsp
+    cases fuel with
+    | zero => rw [spillN_zero] at hsp; cases hsp
+    | succ f =>
+      rw [inTxN] at h
+      simp only [Bool.and_eq_true, List.all_eq_true] at h
+      have hne : items ≠ [] := by
+        intro h0; subst h0; exact hc rfl
+      have hs : SortedIn lo hi (items.map (·.key)) := by
+        refine ⟨(SpillL.sortedKeys_iff _).mp h.1.2, ?_⟩
+        intro k hk
+        obtain ⟨x, hx, rfl⟩ := List.mem_map.mp hk
+        exact ⟨(h.2 x hx).1.2, (h.2 x hx).2⟩
+      rw [spillN] at hsp
+      by_cases hm : hd.mat = true
+      · simp only [N.hd, hm, Bool.not_true, Bool.false_eq_true, if_false, Option.some.injEq] at hsp
+        subst hsp
+        have hg := (SpillL.splitLeaf_good ps sth hd items lo hi hne
+          (fun i hi' => by simpa using (h.2 i hi').1.1) hs).1
+        refine ⟨hg.ne, hg.keys, ?_⟩
+        obtain ⟨segs, heq, _⟩ := SpillL.splitNode_leaf_spec ps sth hd items
+        rw [heq, Kp_split_leaf]
+        exact List.nil_sublist _
+      · have hm' : hd.mat = false := by simpa using hm
+        simp only [N.hd, hm', Bool.not_false, if_true, Option.some.injEq] at hsp
+        subst hsp
+        refine ⟨by simp, ?_, ?_⟩
+        · cases items with
+          | nil => exact absurd rfl hne
+          | cons a r =>
+            refine SpillL.SortedIn_sublist ?_ hs
+            simp [N.firstKey]
+        · rw [pgidsL_single]; exact List.Sublist.refl _
+  · intro hd kids ih fuel pmat lo hi pcs h hc hsp
+    cases fuel with
+    | zero => rw [spillN_zero] at hsp; cases hsp
+    | succ f =>
+      rw [inTxN] at h
+      simp only [Bool.and_eq_true, List.all_eq_true, decide_eq_true_eq] at h
+      obtain ⟨⟨⟨⟨_, h2⟩, hsk⟩, hall⟩, hk⟩ := h
+      have hs : SortedIn lo hi (kids.map (·.1)) := by
+        refine ⟨(SpillL.sortedKeys_iff _).mp hsk, ?_⟩
+        intro k hk
+        obtain ⟨x, hx, rfl⟩ := List.mem_map.mp hk
+        exact ⟨(hall x hx).1.2, (hall x hx).2⟩
+      generalize hdd : ((kids.head?.map (fun p => depth p.2)).getD 0) = d at hk
+      have hkne : kids ≠ [] := by intro h0; subst h0; simp at h2
+      rw [SpillL.spillN_branch] at hsp
+      by_cases hm : hd.mat = true
+      · simp only [hm, Bool.not_true, Bool.false_eq_true, if_false] at hsp
+        cases hfold : kids.foldl (spillStep ps sth f) (some kids) with
+        | none => rw [hfold] at hsp; cases hsp
+        | some kids' =>
+          rw [hfold] at hsp
+          simp only [Option.some.injEq] at hsp
+          subst hsp
+          have hfold' : kids.foldl (spillStep ps sth f) (some ([] ++ kids)) = some kids' := by
+            rw [List.nil_append]; exact hfold
+          obtain ⟨X, hR, hl1, hso, hpg⟩ := fold_pg ps sth f hd.mat hi d kids [] lo kids'
+            (fun p hp lo' hi' pcs' hin hc' hsp' => ih p hp f hd.mat lo' hi' pcs' hin hc' hsp')
+            hk hs
+            (fun p hp h0 => by have := (hall p hp).1.1; rw [h0] at this; simp at this)
+            (by intro a ha; cases ha) (fun h0 => absurd rfl h0) hfold'
+          rw [List.nil_append] at hR
+          subst hR
+          obtain ⟨segs, heq, hflat, hsne, hpos⟩ := SpillL.splitNode_branch_spec ps sth hd kids'
+          have hpos := hpos (by omega)
+          have hpos' : ∀ s ∈ segs, s ≠ [] := fun s hs h0 => by
+            have := hpos s hs; subst h0; simp at this
+          rw [heq]
+          refine ⟨?_, ?_, ?_⟩
+          · intro h0; exact hsne (List.map_eq_nil_iff.mp h0)
+          · rw [List.map_map]
+            refine SpillL.SortedIn_sublist ?_ hso
+            rw [← hflat]
+            exact SpillL.heads_sublist (fun p : Bytes × N => p.1) _
+              (fun a r => by simp [N.firstKey]) segs hpos'
+          · rw [Kp_split_branch, hflat, RebL.pgids_branch]
+            exact hpg.trans (Kp_sub (List.sublist_cons_self _ _))
+      · have hm' : hd.mat = false := by simpa using hm
+        simp only [hm', Bool.not_false, if_true, Option.some.injEq] at hsp
+        subst hsp
+        refine ⟨by simp, ?_, ?_⟩
+        · cases kids with
+          | nil => exact absurd rfl hkne
+          | cons a r =>
+            refine SpillL.SortedIn_sublist ?_ hs
+            simp [N.firstKey]
+        · rw [pgidsL_single]; exact List.Sublist.refl _
+
+/-! ### `growRoot` / `spillRoot` -/
+
+theorem growRoot_pg (ps sth : Nat) : ∀ (fuel : Nat) (pcs : List N) (t' : N),
+    (pcs.map N.firstKey).Pairwise Lt → growRoot ps sth fuel pcs = some t' →
+    (Kp (pgids t')).Sublist (Kp (pgidsL pcs)) := by
+  intro fuel
+  induction fuel with
+  | zero =>
+    intro pcs t' _ h
+    rw [growRoot] at h; cases h
+  | succ f ih =>
+    intro pcs t' hp h
+    cases pcs with
+    | nil => simp [growRoot] at h
+    | cons p1 rest =>
+      cases rest with
+      | nil =>
+        rw [growRoot.eq_3 _ _ _ _ (by omega)] at h
+        cases h
+        rw [pgidsL_single]; exact List.Sublist.refl _
+      | cons p2 rest =>
+        rw [growRoot.eq_4 _ _ _ _ (by simp) (by simp)] at h
+        cases hput : putPieces [] [] (p1 :: p2 :: rest) with
+        | none => rw [hput] at h; cases h
+        | some kids =>
+          rw [hput] at h
+          simp only at h
+          have hcnt := putPieces_count _ _ _ _ hput
+          have hput' := SpillL.putPieces_rest (p1 :: p2 :: rest) [] [] hcnt hp
+            (by intro a ha; cases ha) (by intro q _ b hb; cases hb)
+          simp only [List.nil_append, List.append_nil] at hput'
+          rw [hput'] at hput
+          cases hput
+          obtain ⟨segs, heq, hflat, hsne, hpos⟩ :=
+            SpillL.splitNode_branch_spec ps sth written ((p1 :: p2 :: rest).map kv)
+          have hpos := hpos (by simp)
+          have hpos' : ∀ s ∈ segs, s ≠ [] := fun s hs h0 => by
+            have := hpos s hs; subst h0; simp at this
+          rw [heq] at h
+          have hp2 : ((segs.map (N.branch written)).map N.firstKey).Pairwise Lt := by
+            rw [List.map_map]
+            have hsub := SpillL.heads_sublist (fun p : Bytes × N => p.1)
+              (N.firstKey ∘ N.branch written) (fun a r => by simp [N.firstKey]) segs hpos'
+            refine List.Pairwise.sublist hsub ?_
+            rw [hflat, List.map_map]
+            exact hp
+          have := ih _ t' hp2 h
+          rw [Kp_split_branch, hflat, pgidsKids_kv] at this
+          exact this
+
+theorem spillRoot_pg (ps sth fuel : Nat) (t t' : N) (hi : inTxN true true none none t = true)
+    (h : spillRoot ps sth fuel t = some t') : (Kp (pgids t')).Sublist (Kp (pgids t)) := by
+  unfold spillRoot at h
+  by_cases hm : t.hd.mat = true
+  · simp only [hm, Bool.not_true, Bool.false_eq_true, if_false] at h
+    cases hsp : spillN ps sth fuel t with
+    | none => rw [hsp] at h; cases h
+    | some pcs =>
+      rw [hsp] at h
+      simp only at h
+      by_cases he : ∃ hd, t = .leaf hd []
+      · obtain ⟨hd, rfl⟩ := he
+        cases fuel with
+        | zero => rw [spillN_zero] at hsp; cases hsp
+        | succ f =>
+          rw [SpillL.spillN_empty_leaf ps sth f hd hm] at hsp
+          cases hsp
+          rw [growRoot.eq_3 _ _ _ _ (Nat.succ_ne_zero f)] at h
+          cases h
+          rw [OpsL.pgids_leaf]
+          exact List.nil_sublist _
+      · have hin := SpillL.inTx_nonroot hi (fun hd h0 => he ⟨hd, h0⟩)
+        have hc : t.count ≠ 0 := by
+          cases t with
+          | leaf hd items =>
+            cases items with
+            | nil => exact absurd ⟨hd, rfl⟩ he
+            | cons a r => simp [N.count]
+          | branch hd kids =>
+            rw [inTxN] at hin
+            simp only [Bool.and_eq_true, decide_eq_true_eq] at hin
+            have := hin.1.1.1.2
+            simp only [N.count]; omega
+        obtain ⟨_, hkeys, hsub⟩ := spillN_pg ps sth t fuel true none none pcs hin hc hsp
+        exact (growRoot_pg ps sth fuel pcs t' hkeys.1 h).trans hsub
+  · have hm' : t.hd.mat = false := by simpa using hm
+    simp only [hm', Bool.not_false, if_true, Option.some.injEq] at h
+    subst h
+    exact List.Sublist.refl _
+
+/-! ### rebalance -/
+
+theorem rebalanceAll_sub (th fuel : Nat) : ∀ (order : List Nat) (t t' : N), (pgids t).Nodup →
+    rebalanceAll th fuel t order = some t' → (pgids t').Sublist (pgids t)
+  | [], t, t', _, h => by
+    simp only [rebalanceAll, Option.some.injEq] at h
+    subst h
+    exact List.Sublist.refl _
+  | pg :: rest, t, t', hn, h => by
+    rw [rebalanceAll] at h
+    cases hfm : findMat pg fuel t with
+    | none =>
+      rw [hfm] at h
+      exact rebalanceAll_sub th fuel rest t t' hn h
+    | some path =>
+      rw [hfm] at h
+      simp only at h
+      obtain ⟨n, hn1, _, hn3⟩ := RebL.findMat_nodeAt hfm
+      cases h1 : rebalanceAt th t path with
+      | none => rw [h1] at h; cases h
+      | some t1 =>
+        rw [h1] at h
+        simp only at h
+        obtain ⟨s1, _, _⟩ := RebL.rebalanceAt_step hn1 hn3 hn h1
+        exact (rebalanceAll_sub th fuel rest t1 t' (List.Nodup.sublist s1 hn) h).trans s1
 
 end Bolt.BTree.PagesL
